@@ -23,6 +23,21 @@ CLAIMED = {
         note=('Trusts: the two documentation tables as the specification (parse failure is a harness error, not a pass); the '
               'generator\'s abstract model only for keeping programs pixel-scale compatible (verdicts use the live objects\' '
               'public ptype). Program length bound 12 per caller. Rotate and Flip are genuinely broken (8 known findings).')),
+    'C10': dict(
+        design='7.2',
+        text=('Seeded deterministic simulation of 2-4 callers sharing caller-owned arrays, planes, spectra and wavefronts: pipeline fragments '
+              '(plane multiply, DFT/FFT propagation with scratch, tilt fitting both modes, rescale/resample/copy, dft2/idft2 with repeated '
+              'shapes and out=, Zernike, array utilities, shapes, detector chain, seeded noise models, spectrum arithmetic and queries) are '
+              'interleaved by a seeded scheduler together with cache-size changes/clears, global-RNG draws and reseeds, duplicate calls and '
+              '(one run in four) read-only caller arrays. Oracles: byte snapshot of every store entry around every call (alias-aware '
+              'whitelist for documented in-place calls); repeat = first; each caller\'s interleaved outcome sequence = its solo run in a '
+              'pristine world; global RNG state unchanged around every seeded/deterministic call; construct-then-fit vs fit/update/refit '
+              'paths to the same plane state image identically (premise checked from public state); and every chunk\'s last run is '
+              're-executed as the first act of a freshly forked process (cold = warm), which detects cross-call global state the simulator '
+              'does not know by name. Exploration: sampled histories, not all.'),
+        note=('Trusts numpy/scipy; single-threaded BLAS so that same-process repeats are bitwise equal (re-validated by selftest-determinism). '
+              'Interleaving is at public-API-call granularity (lentil has no threads or locks; pre-emption inside a call would test a '
+              'thread-safety property nobody stated). cosmic_rays and smear(angle=None), which consume the global RNG by design, are exercised under C18.')),
 }
 
 NA = {
